@@ -22,6 +22,7 @@ pub(crate) struct CobwebCommandQueue<T: Send + Sync + 'static>
 impl<T: Send + Sync + 'static> CobwebCommandQueue<T>
 {
     /// Removes the inner command queue.
+    #[allow(dead_code)]
     pub(crate) fn remove(&mut self) -> VecDeque<T>
     {
         let replacement = self.buffers.pop().unwrap_or_default();
@@ -34,6 +35,13 @@ impl<T: Send + Sync + 'static> CobwebCommandQueue<T>
         self.commands.push_back(command);
     }
 
+    /// Removes the first (oldest) command that satisfies `pred`, leaving the others in place.
+    pub(crate) fn remove_first(&mut self, pred: impl Fn(&T) -> bool) -> Option<T>
+    {
+        let pos = self.commands.iter().position(pred)?;
+        self.commands.remove(pos)
+    }
+
     /// Removes a command from the front of the queue.
     pub(crate) fn pop_front(&mut self) -> Option<T>
     {
@@ -41,6 +49,7 @@ impl<T: Send + Sync + 'static> CobwebCommandQueue<T>
     }
 
     /// Pushes a list of cobweb commands to the end of the command queue.
+    #[allow(dead_code)]
     pub(crate) fn append(&mut self, mut new: VecDeque<T>)
     {
         if new.len() > 0
